@@ -151,6 +151,16 @@ Theorem exp_is_semiring_homomorphism :
   (forall a b, Exp (omul OpsLog a b) = (Exp a * Exp b)%R).
 Proof. exact (conj eq_refl (conj exp_0 (conj Exp_add Exp_mul))). Qed.
 
+(* known finding F-C15-TF-SELFLOOP (the model follows the code): with final
+   states {1} and identity transitions, SetFinalStates yields Tf(0,0) = 1 for the
+   non-final state 0, and the Viterbi path [0;0] has positive weight -- the
+   restriction to the final states is not enforced for states without a
+   transition into them.  All theorems above are relative to Tf as built. *)
+Theorem final_state_restriction_refuted :
+  zmem 0 [1%Z] = false /\ w_f2 0%Qc w_tf 0 0 = 1%Qc /\ w_path = [0; 0] /\
+  (0 < weight OpsQc (w_f 0%Qc w_pi) (w_f2 0%Qc w_tr) (w_f2 0%Qc w_tf) (fun i => i) w_e 2 w_path)%Qc.
+Proof. exact final_restriction_witness. Qed.
+
 (* the posterior of a sequence of state sets (Hmm.Posterior) has no theorem yet:
    what is missing is the restricted forward recursion over the two swapped
    buffers; it is compared with the enumeration in every correspondence case *)
